@@ -2,7 +2,9 @@ ENTRY = dict(
     runner="C26", pkg="./cmd/c26", corr=["Corr.C26Corr"], n=dict(quick=160, thorough=6000), race_suite="C26race", runner_timeout=3000,
     rule="one UConn (HelloGolang, Chrome_120, Firefox_120, Chrome_133) over loopback TCP against a crypto/tls server (normal, slow, "
          "aborting); 2..5 concurrent Handshake/HandshakeContext callers with random start delays, cancellation at a random point in "
-         "0..3 ms or after return, optional reader, writer, Close/CloseWrite at a random point; 8 runs in parallel; the same workload "
+         "0..3 ms or after return, optional reader, writer, Close/CloseWrite at a random point; every 7th run: Close while the single Write is "
+         "parked in the transport (peer stopped reading, no write deadline); every 7th run: Read and Write started before any Handshake "
+         "(implicit handshakes) against a server that waits for the client's request; 8 runs in parallel; the same workload "
          "again under the race detector. Distinct by (id, server, callers, cancellations, close kind, results); non-trivial with more than two callers.",
     trusted_base=["Go runtime mutexes, atomics, context and scheduler", "Go race detector (data-race freedom is observed, not proved)",
                   "crypto/tls server as the peer"],
@@ -11,6 +13,7 @@ ENTRY = dict(
              "other goroutines act on the shared state only through the environment steps of Model/HsLock.v (shown for the modelled caller itself)"],
     level_text="Proof on the lock model (one caller against an environment of arbitrarily many others; all interleavings): every caller returns "
                "the shared outcome or its own ctx error (then the connection was closed), no deadlock, cancelling after return is a no-op, "
-               "lock discipline for the shared handshake fields. Partial: data-race freedom of the real memory accesses and the "
-               "activeCall interlock of Write/Close are only observed (race detector, watchdog).",
+               "lock discipline for the shared handshake fields, the input lock is waited for only while no result exists (never behind a reader "
+               "parked in Read); Write/Close interlock model (one writer, one closer, possibly stalled peer): no deadlock, bounded steps, Close "
+               "takes c.out only with no Write in flight. Partial: data-race freedom of the real memory accesses is only observed (race detector).",
 )
